@@ -664,7 +664,8 @@ structure PeerCase where
   group : Option String
   deriving Repr, DecidableEq
 
-/-- `HashMap::insert` of the groups by name: a later group with the same name replaces the earlier -/
+/-- `HashMap::insert` of the groups by name: a later group with the same name replaces the earlier
+    (applied when a case line is read: `Case.hist` carries the final map) -/
 def normGroups (gs : List Group) : List Group :=
   gs.foldl (fun acc g => (acc.filter fun x => x.name != g.name) ++ [g]) []
 
@@ -695,7 +696,7 @@ structure HistObs where
   deriving Repr, DecidableEq
 
 def initSt (g : GlobalCfg) (groups : List Group) : St :=
-  { asn := g.asn, rid := g.rid, confed := g.confed, groups := normGroups groups
+  { asn := g.asn, rid := g.rid, confed := g.confed, groups := groups
     peers := [], ctxs := [], live := [], nextSid := 0 }
 
 def runHist (g : GlobalCfg) (groups : List Group) (peers : List PeerCase) (ops : List Op) : Out HistObs := do
